@@ -39,12 +39,22 @@ type monitor struct {
 	inside  atomic.Int64
 	overlap atomic.Int64
 	derived atomic.Int64 // stores made through a derived context that has already ended
+	aliases atomic.Int64 // stores made by the alias item stage before the rest of the item chain ran
 }
 
 // executor: Activate = set (the id is the value to store), Destroy = read (the response id is what
 // the placeholder held), Archive = fail, Recover = noop.
 func executor(m *monitor) *kmipserver.BatchExecutor {
 	ex := kmipserver.NewBatchExecutor()
+	// an item stage that resolves aliases: for "alias:<id>" it stores <id> as the request's current identifier BEFORE
+	// the rest of the chain runs (a value stored while processing the item, by a stage of the item's own chain)
+	ex.BatchItemUse(func(next kmipserver.BatchItemNext, ctx context.Context, bi *kmip.RequestBatchItem) (*kmip.ResponseBatchItem, error) {
+		if p, ok := bi.RequestPayload.(*payloads.ActivateRequestPayload); ok && p != nil && strings.HasPrefix(p.UniqueIdentifier, "alias:") {
+			kmipserver.SetIdPlaceholder(ctx, strings.TrimPrefix(p.UniqueIdentifier, "alias:"))
+			m.aliases.Add(1)
+		}
+		return next(ctx, bi)
+	})
 	enter := func() {
 		if m.inside.Add(1) > 1 {
 			m.overlap.Add(1)
@@ -55,6 +65,10 @@ func executor(m *monitor) *kmipserver.BatchExecutor {
 	ex.Route(kmip.OperationActivate, kmipserver.HandleFunc(func(ctx context.Context, req *payloads.ActivateRequestPayload) (*payloads.ActivateResponsePayload, error) {
 		enter()
 		defer leave()
+		if strings.HasPrefix(req.UniqueIdentifier, "alias:") {
+			// resolved (and stored) by the alias stage in front of the handlers; nothing to store here
+			return &payloads.ActivateResponsePayload{UniqueIdentifier: req.UniqueIdentifier}, nil
+		}
 		if core.Hash64(req.UniqueIdentifier)%2 == 1 {
 			// a handler that gives its backend call a context of its own, releases it, and then stores the
 			// identifier through that (derived, now ended) context: the request it belongs to is still being processed
@@ -151,7 +165,11 @@ func build(reqID string, prog []int) *kmip.RequestMessage {
 		bi := kmip.RequestBatchItem{UniqueBatchItemID: []byte{byte(i + 1)}}
 		switch a {
 		case aSet:
-			bi.Operation, bi.RequestPayload = kmip.OperationActivate, &payloads.ActivateRequestPayload{UniqueIdentifier: setValue(reqID, i)}
+			v := setValue(reqID, i)
+			if core.Hash64(v)%4 == 3 {
+				v = "alias:" + v
+			}
+			bi.Operation, bi.RequestPayload = kmip.OperationActivate, &payloads.ActivateRequestPayload{UniqueIdentifier: v}
 		case aRead:
 			bi.Operation, bi.RequestPayload = kmip.OperationDestroy, &payloads.DestroyRequestPayload{UniqueIdentifier: []string{"r", "r2"}[i%2]}
 		case aFail:
@@ -164,6 +182,10 @@ func build(reqID string, prog []int) *kmip.RequestMessage {
 			bi.Operation, bi.RequestPayload = kmip.OperationObtainLease, &payloads.ObtainLeaseRequestPayload{UniqueIdentifier: "c"}
 		default:
 			bi.Operation, bi.RequestPayload = kmip.OperationRecover, &payloads.RecoverRequestPayload{UniqueIdentifier: reqID + ":explicit"}
+		}
+		if core.Hash64(reqID, fmt.Sprint(i))%3 == 0 {
+			// a vendor extension the server need not understand (not critical): the item is processed like any other
+			bi.MessageExtension = &kmip.MessageExtension{VendorIdentification: "verif", CriticalityIndicator: false, VendorExtension: ttlv.Struct{ttlv.Value{Tag: 0x540001, Value: int32(i)}}}
 		}
 		m.BatchItem = append(m.BatchItem, bi)
 	}
@@ -388,6 +410,7 @@ func direct(c *core.Ctx, r *core.Rand, i int) {
 	wg.Wait()
 	c.Count("handler_overlaps", m.overlap.Load())
 	c.Count("stores_through_ended_derived_context", m.derived.Load())
+	c.Count("stores_by_the_alias_item_stage", m.aliases.Load())
 	c.Count("concurrent_requesters", int64(N))
 }
 
@@ -437,6 +460,7 @@ func wire(c *core.Ctx, r *core.Rand, i int) {
 	<-done
 	c.Count("handler_overlaps", m.overlap.Load())
 	c.Count("stores_through_ended_derived_context", m.derived.Load())
+	c.Count("stores_by_the_alias_item_stage", m.aliases.Load())
 }
 
 func Spec() *core.Spec {
@@ -448,7 +472,7 @@ func Spec() *core.Spec {
 		Rule: "seeded programs of 1-8 batch items over {set (value = request id + item index), read, fail, noop}; 2-64 goroutines issuing requests through BatchExecutor.HandleRequest at once (handlers yield so that items of different requests interleave; in half of the rounds a retry middleware runs the chain twice for a quarter of the requests) and 1-16 real server connections each sending a sequence of 6 requests; " +
 			"every read is checked against a per-request sequential register model starting empty; any value carrying another request's id is a leak, identified exactly; race reports whose stacks are the placeholder accessors are violations. a fifth action storing the empty value; reads through IdPlaceholder and through GetIdOrPlaceholder; items resolving an explicit identifier in between; blank-padded values; items whose handler fails once under an item-retry middleware; handlers sending a refused request of their own; Batch Order Option absent/true/false; a batch-splitting message middleware (chunks through separate continuation calls); distinct = distinct programs",
 		Assumptions: []string{"after a failed item both the previous value and the empty value are accepted (the statement is silent on clearing)"},
-		Required:    []string{"requests.direct", "requests.wire", "reads", "handler_overlaps", "connections", "retried_requests", "split_requests", "empty_value_stored_over_a_value", "item_retry_requests", "stores_through_ended_derived_context"},
+		Required:    []string{"requests.direct", "requests.wire", "reads", "handler_overlaps", "connections", "retried_requests", "split_requests", "empty_value_stored_over_a_value", "item_retry_requests", "stores_through_ended_derived_context", "stores_by_the_alias_item_stage"},
 		RaceVerdict: func(r core.RaceReport) (string, bool) {
 			for _, st := range r.Frames {
 				for _, f := range st {
